@@ -1,22 +1,30 @@
 """C19 - parser combinators implement ordered-choice PEG semantics.
 
-Three sub-checks:
+Four sub-checks (plus coverage-guided campaigns over the first three):
 
 terms    generated grammar terms over the parsr combinators x inputs, decided by a reference PEG
          interpreter over the same term AST (pure function (term, input, pos) -> (pos', value) | FAIL).
          The consumed length is made observable through the public call by parsing with
          Sequence([term, Many(AnyChar)]).  Per term: *all* inputs up to a bound over a 3-letter alphabet
-         plus a few generated longer ones.
+         plus a few generated longer ones.  The three grammar symbols are either a, b, c or - symbol map - any
+         three characters of a pool of line ends, other white space, control characters, quotes / backslash /
+         comment characters, digits, cased and non-ASCII letters (PEG semantics do not depend on what the input
+         symbols are), and the library's own named character classes (EOL, LineEnd, WS, ...) are leaves.
 json     JSON values of the documented subset (no non-ASCII, no backslash escapes other than \\", no
          exponent numbers) rendered with generated whitespace; json_parser.loads == json.loads == value
          with a type-strict comparison.
 taglang  tag expressions (token chains with ! & | , parentheses, quoted tags, /regex atoms, random
          whitespace) against an independent tokenizer-free precedence-climbing evaluator, for every
          subset of the tag universe.
+tagselect the same expressions where the shipped tools consume them: components with generated tag sets (also none
+         at all) in a throw-away plugin package, selected by insights.run(print_summary=True) with --tags / -k
+         (insights-run) and by insights.tools.query.main() (insights-info); the selected set must be the set
+         boolean evaluation of the expression prescribes.
 """
 import itertools
 import json
 import re
+import string
 
 from hypothesis import strategies as st
 
@@ -27,16 +35,29 @@ RULE = ("terms: recursive strategy over Char/InSet/String/Literal/AnyChar/EOF/Se
         "KeepLeft/KeepRight/FollowedBy/NotFollowedBy/Map(+Backtrack)/Lift(+Backtrack)/Wrapper/Forward, built "
         "with constructors or with the operators (+ | << >> & / % .map .until, incl. +/| accumulation); "
         "repetition bodies are made consuming and recursion guarded by construction; every term is run on ALL "
-        "inputs of length <= 3 (quick) / <= 5 (thorough) over a 3-letter alphabet plus generated longer inputs. "
+        "inputs of length <= 3 (quick) / <= 5 (thorough) over a 3-letter alphabet plus generated longer inputs; "
+        "the three symbols are a, b, c or (symbol map, about half of the cases) three characters of a pool of line "
+        "ends (CR, LF), blanks, control characters, quotes / backslash / comment characters, digits, cased and "
+        "non-ASCII letters, renamed consistently in term, reject lists and inputs; the library's named parsers "
+        "(EOL, LineEnd, WS, WSChar, Digit(s), Letter(s)) are leaves. "
         "Non-trivial term: has a look-ahead or choice nested under repetition or sequence AND on some input a "
         "sub-term failed after input had been consumed (real backtracking) AND it both accepted and rejected "
         "inputs; distinct by (term, build mode). json: non-trivial = nesting depth >= 2; distinct by rendered "
         "text. taglang: non-trivial = some chain mixes >= 2 operator levels without parentheses; distinct by "
-        "rendered text; each expression is evaluated on every subset of the 7-tag universe.")
+        "rendered text; each expression is evaluated on every subset of the 7-tag universe. tagselect: 2-6 generated "
+        "rules / conditions (tag sets over the same universe, also none: tags=[] or no tags keyword; 1-4 modules) in "
+        "a throw-away plugin package, a generated --tags expression and (1 in 3) a -k/--pkg-query expression over "
+        "the module names, consumed by insights.run(print_summary=True) with -p or with the components passed, and "
+        "by insights.tools.query.main(); non-trivial = some but not all components are selected; distinct by "
+        "(expressions, tag sets, entry point).")
 ASSUMPTIONS = [
     "reference PEG interpreter, reference tag-expression evaluator and JSON renderer are harness code "
     "(self-tested on fixed cases before every run); Python's json and re modules are trusted",
     "a parse 'fails' iff calling the built parser raises; values are compared type-strictly",
+    "tagselect: a component without dependencies is in broker.instances after insights.run iff the option selected "
+    "it; insights-info prints the name of each selected component at column 0; the exception 'No components for "
+    "tag / pkg-query expression' is the documented form of an empty selection; vp.sandbox.GlobalState restores "
+    "the registries (the default components are loaded once per process before the snapshot)",
     "checked against a tree with fixes/C19-1..3 applied (sep_by falsy first element, empty JSON string, "
     "JSON whitespace before ':' and inside empty containers); the reproducers are regression cases",
 ]
@@ -50,6 +71,11 @@ EXCLUDED = [
     "tag expressions outside the documented syntax (!!x, '! x', bare tags containing ( ! / or quotes, "
     "bare regex not followed by whitespace); rejection of ill-formed expressions is not demanded",
     "Parser.sep_by inside generated terms (covered through the JSON grammar)",
+    "WithIndent / HangingString under a symbol map other than a, b, c (they skip white space, cut comments and "
+    "measure columns, which the reference models only for white-space free letters): generated as Wrapper / String "
+    "there; characters whose lower()/upper() is not one character; lone surrogates",
+    "tagselect: tags given to components by configuration files (-c; undocumented key) or by a component type's "
+    "class-level tags; components that depend on each other (a dependency of a selected component is evaluated too)",
 ]
 
 class _Fail(object):
@@ -71,6 +97,23 @@ FAIL = _Fail()
 #   ["map", t, tag, reject] ["lift", [t..], tag, reject] ["wrap", t] ["rec", body]
 #   ["withindent", t]   WithIndent: pushes the current column for the duration of t (also when t fails)
 #   ["hang", chars]     HangingString(chars): reads the indentation stack; never fails
+#   ["prim", name]      one of the library's ready-made parsers (EOL, LineEnd, WS, WSChar, Digit(s), Letter(s));
+#                       its reference meaning is PRIM_DEF[name], the definition its name documents
+
+_NO_EOL_WS = "".join(c for c in string.whitespace if c not in "\n\r")
+PRIM_DEF = {
+    "EOL": ["inset", "\n\r"],
+    "LineEnd": ["choice", [["inset", "\n\r"], ["eof"]]],
+    "WS": ["many", ["inset", string.whitespace], 0],
+    "WSChar": ["inset", _NO_EOL_WS],
+    "Digit": ["inset", string.digits],
+    "Digits": ["string", string.digits, 1],
+    "Letter": ["inset", string.ascii_letters],
+    "Letters": ["string", string.ascii_letters, 1],
+}
+PRIM_ORDER = ["EOL", "LineEnd", "WS", "WSChar", "Digit", "Digits", "Letter", "Letters"]
+PRIM_CHARS = {"EOL": "\n\r", "LineEnd": "\n\r", "WS": string.whitespace, "WSChar": _NO_EOL_WS, "Digit": string.digits,
+              "Digits": string.digits, "Letter": string.ascii_letters, "Letters": string.ascii_letters}
 
 def nullable(t):
     """may succeed without consuming (conservative: ref counts as nullable)"""
@@ -83,6 +126,8 @@ def nullable(t):
         return len(t[1]) == 0
     if k in ("eof", "opt", "until", "ref", "hang"):
         return True
+    if k == "prim":
+        return nullable(PRIM_DEF[t[1]])
     if k == "withindent":
         return nullable(t[1])
     if k in ("seq", "lift"):
@@ -103,7 +148,7 @@ def leftreach(t):
     k = t[0]
     if k == "ref":
         return True
-    if k in ("char", "inset", "any", "string", "lit", "eof", "hang"):
+    if k in ("char", "inset", "any", "string", "lit", "eof", "hang", "prim"):
         return False
     if k == "withindent":
         return leftreach(t[1])
@@ -131,7 +176,7 @@ def normalise(t, in_rec=False, guard="a"):
     """Put a generated term into the property's domain *by construction*: repetition bodies consume,
     recursion is guarded, refs only occur inside a rec.  Idempotent."""
     k = t[0]
-    if k in ("char", "inset", "string", "lit", "any", "eof", "hang"):
+    if k in ("char", "inset", "string", "lit", "any", "eof", "hang", "prim"):
         return list(t)
     if k == "withindent":
         return [k, normalise(t[1], in_rec, guard)]
@@ -171,7 +216,7 @@ def effective(t, mode):
     """the term the built parser object *means*: in operator mode `x + y` accumulates onto x when x is
     already a Sequence (documented), which flattens the value list"""
     k = t[0]
-    if k in ("char", "inset", "string", "lit", "any", "eof", "ref", "hang"):
+    if k in ("char", "inset", "string", "lit", "any", "eof", "ref", "hang", "prim"):
         return t
     if k == "withindent":
         return [k, effective(t[1], mode)]
@@ -227,6 +272,9 @@ def build(P, t, mode, fwd=None):
         return P.Wrapper(P.AnyChar) if ops else P.AnyChar
     if k == "eof":
         return P.Wrapper(P.EOF) if ops else P.EOF
+    if k == "prim":
+        # the module's own objects, used the way the shipped grammars use them
+        return getattr(P, t[1])
     if k == "ref":
         return fwd
     if k in ("seq", "choice"):
@@ -310,6 +358,8 @@ def ev(t, s, pos, env, tr):
         return (pos + 1, c) if c is not None else FAIL
     if k == "eof":
         return (pos, None) if c is None else FAIL
+    if k == "prim":
+        return ev(PRIM_DEF[t[1]], s, pos, env, tr)
     if k == "ref":
         tr.recursed = True
         return ev(env, s, pos, env, tr)
@@ -450,7 +500,7 @@ def _kinds(t, out, under=False, flags=None):
 
 
 _KINDS = set(["char", "inset", "string", "lit", "any", "eof", "ref", "seq", "choice", "many", "until", "opt",
-              "kl", "kr", "fb", "nfb", "map", "lift", "wrap", "rec", "withindent", "hang"])
+              "kl", "kr", "fb", "nfb", "map", "lift", "wrap", "rec", "withindent", "hang", "prim"])
 
 
 def _all_inputs(alpha, maxlen):
@@ -469,7 +519,7 @@ def _literals_of(t, out):
     return out
 
 
-def _literal_inputs(term):
+def _literal_inputs(term, fill="c"):
     """inputs derived from the term's own literals (a pure function of the term): a literal preceded by a
     partial match of itself, doubled, interleaved with the other literals - the texts on which scanning to a
     terminator, greedy repetition and backtracking after a partial match are decided"""
@@ -482,7 +532,7 @@ def _literal_inputs(term):
     for x in lits:
         for k in range(1, len(x) + 1):
             out.append(x[:k] + x)             # 'aab' for 'ab', '**/' for '*/'
-            out.append("c" + x[:k] + x + "c")
+            out.append(fill + x[:k] + x + fill)
             out.append(x[:k] * 2 + x + x[:k])
         out.append(x + x)
         for y in lits:
@@ -499,12 +549,13 @@ def _literal_inputs(term):
 def check_terms(case):
     from insights import parsr as P
     mode = case["mode"]
-    term = normalise(case["term"])
+    sym = case.get("sym") or ["a", "b", "c"]      # the three grammar symbols (symbol map of the strategy)
+    term = normalise(case["term"], guard=sym[0])
     eff = effective(term, mode)
     parser = P.Sequence([build(P, term, mode), P.Many(P.AnyChar)])
     n_ok = n_fail = 0
     tr = Trace()
-    inputs = list(_all_inputs(case["alpha"], case["maxlen"])) + list(case["extra"]) + _literal_inputs(eff)
+    inputs = list(_all_inputs(case["alpha"], case["maxlen"])) + list(case["extra"]) + _literal_inputs(eff, sym[2])
     for s in inputs:
         exp = ev(eff, s, 0, None, tr)
         try:
@@ -533,6 +584,9 @@ def check_terms(case):
     _kinds(eff, kinds, False, flags)
     labels = ["has:" + k for k in sorted(kinds) if k not in ("char", "inset", "any")]
     labels.append("mode=" + mode)
+    labels.extend(_sym_labels(sym))
+    for pn in sorted(set(_prims_of(eff, []))):
+        labels.append("prim:" + pn)
     if flags["nested"]:
         labels.append("lookahead/choice-under-rep/seq")
     if tr.backtracked:
@@ -570,7 +624,18 @@ def _leaf():
         st.just(["any"]), st.just(["eof"]), st.just(["ref"]),
         st.tuples(st.just("char"), st.sampled_from(_AB)).map(list),
         st.tuples(st.just("hang"), st.sampled_from(["a", "ab", "abc", "bc"])).map(list),
+        st.tuples(st.just("prim"), st.integers(0, 7)).map(list),     # resolved against the alphabet by concretise()
     )
+
+
+def _rejecting():
+    one = st.sampled_from(_AB)
+    leaf = st.one_of(st.tuples(st.just("char"), one).map(list), st.tuples(st.just("inset"), st.sampled_from(["ab", "bc", "abc"])).map(list),
+                     st.just(["any"]))
+    return st.one_of(
+        st.tuples(st.just("map"), leaf, st.integers(0, 2), st.lists(one, min_size=1, max_size=2, unique=True)).map(list),
+        st.tuples(st.just("lift"), st.lists(leaf, min_size=1, max_size=2), st.integers(0, 2),
+                  st.lists(st.lists(one, min_size=1, max_size=2), min_size=1, max_size=4)).map(list))
 
 
 def _ext(ch):
@@ -611,12 +676,147 @@ def _ext(ch):
         st.tuples(st.just("many"), st.tuples(st.just("kr"), st.tuples(st.just("nfb"), st.just(["lit", "ab", False, None]),
                                                                        st.just(["any"])).map(list), st.just(["any"])).map(list),
                   st.integers(0, 1)).map(list),
+        # "a failed alternative leaves no trace on what later alternatives see": a mapped / lifted function that
+        # refuses (Backtrack) values its children really produce, placed where something else is tried afterwards -
+        # first alternative of a choice, an option or a repetition in front of another term
+        st.tuples(_rejecting(), ch, st.integers(0, 2)).map(
+            lambda p: [["choice", [p[0], p[1]]], ["seq", [["opt", p[0], None], p[1]]],
+                       ["seq", [["many", p[0], 0], p[1]]]][p[2]]),
         # shapes the property names: look-ahead inside repetition, choice under sequence
         st.tuples(st.just("many"), st.tuples(st.sampled_from(["fb", "nfb"]), ch, ch).map(list),
                   st.integers(0, 1)).map(list),
         st.tuples(st.just("seq"), st.tuples(st.tuples(st.just("choice"), st.lists(ch, min_size=2, max_size=3)).map(list),
                                             ch).map(list)).map(list),
     )
+
+
+# ---- symbol map ----------------------------------------------------------------------------------
+# PEG semantics are independent of what the input symbols are: the term generator works over the three
+# abstract symbols a, b, c (and their upper-case forms for case-insensitive literals) and a drawn symbol map
+# renames them - in the term, in its reject lists and in the inputs - to three concrete characters.  What a
+# grammar then sees must still be exactly the string the caller passed: line ends, blanks, NUL, quotes,
+# backslashes, comment characters, non-ASCII letters are ordinary symbols for the combinators.
+
+_SYM_POOL = ["\n", "\r", "\n", "\r", " ", "\t", "\x0b", "\x0c", "\x00", "\x1b", "\x1c", "\x7f", "\x85", "\u2028",
+             "\u00a0", "\ufeff", "\\", '"', "'", "#", "/", "%", "{", "*", "-", ".", "0", "7", "x", "Z", "\u00e9",
+             "\u0416", "\U0001f600"]
+
+
+def _swap(ch):
+    w = ch.swapcase()
+    return w if len(w) == 1 and len(w.lower()) == 1 and len(w.upper()) == 1 else ch
+
+
+def _sym_char(ch, sym):
+    i = "abc".find(ch)
+    if i >= 0:
+        return sym[i]
+    i = "ABC".find(ch)
+    if i >= 0:
+        return _swap(sym[i])
+    return ch
+
+
+def _sym_text(x, sym):
+    return "".join(_sym_char(ch, sym) for ch in x)
+
+
+def _sym_value(v, sym):
+    """rename inside a value of a reject list (what Map / Lift functions compare the matched text with)"""
+    if isinstance(v, str):
+        return _sym_text(v, sym)
+    if isinstance(v, list):
+        return [_sym_value(x, sym) for x in v]
+    return v
+
+
+def _uniq(chars):
+    out = []
+    for ch in chars:
+        if ch not in out:
+            out.append(ch)
+    return "".join(out)
+
+
+def concretise(t, sym, alpha):
+    """abstract term -> term over the concrete symbols.  The context-stack combinators measure columns and skip
+    white space, which the reference models only for the white-space free letters: under any other symbol map
+    WithIndent becomes a Wrapper and HangingString a String.  ["prim", n] picks, among the library's named
+    parsers that can match a character of the alphabet (LineEnd and WS always can succeed), the n-th."""
+    ident = list(sym) == ["a", "b", "c"]
+    k = t[0]
+    if k == "char":
+        return [k, _sym_char(t[1], sym)]
+    if k == "inset":
+        return [k, _uniq(_sym_text(t[1], sym))]
+    if k == "string":
+        return [k, _uniq(_sym_text(t[1], sym)), t[2]]
+    if k == "lit":
+        return [k, _sym_text(t[1], sym), t[2], t[3]]
+    if k in ("any", "eof", "ref"):
+        return list(t)
+    if k == "hang":
+        return list(t) if ident else ["string", _uniq(_sym_text(t[1], sym)), 0]
+    if k == "prim":
+        cands = [n for n in PRIM_ORDER if n in ("LineEnd", "WS") or any(ch in PRIM_CHARS[n] for ch in alpha)]
+        return ["prim", cands[t[1] % len(cands)]]
+    if k == "withindent":
+        return [k if ident else "wrap", concretise(t[1], sym, alpha)]
+    if k in ("seq", "choice"):
+        return [k, [concretise(c, sym, alpha) for c in t[1]]]
+    if k == "lift":
+        return [k, [concretise(c, sym, alpha) for c in t[1]], t[2], _sym_value(t[3], sym)]
+    if k in ("many", "opt"):
+        return [k, concretise(t[1], sym, alpha), t[2]]
+    if k in ("until", "kl", "kr", "fb", "nfb"):
+        return [k, concretise(t[1], sym, alpha), concretise(t[2], sym, alpha)]
+    if k == "map":
+        return [k, concretise(t[1], sym, alpha), t[2], _sym_value(t[3], sym)]
+    if k in ("wrap", "rec"):
+        return [k, concretise(t[1], sym, alpha)]
+    raise ValueError(k)
+
+
+def _sym_class(ch):
+    if ch in "\n\r":
+        return "line-end"
+    if ch in string.whitespace:
+        return "blank"
+    if ord(ch) < 0x20 or ord(ch) == 0x7f:
+        return "control"
+    if ord(ch) > 0x7e:
+        return "non-ascii"
+    if ch.isalnum():
+        return "alnum"
+    return "punct"
+
+
+def _sym_labels(sym):
+    if list(sym) == ["a", "b", "c"]:
+        return ["sym=abc"]
+    out = ["sym=mapped"]
+    for c in sorted(set(_sym_class(ch) for ch in sym)):
+        out.append("sym:" + c)
+    if "\r" in sym and "\n" in sym:
+        out.append("sym:CR+LF")
+    return out
+
+
+def _prims_of(t, out):
+    if t[0] == "prim":
+        out.append(t[1])
+    for x in _subterms(t):
+        _prims_of(x, out)
+    return out
+
+
+_sym = st.one_of(
+    st.just(["a", "b", "c"]), st.just(["a", "b", "c"]), st.just(["a", "b", "c"]),
+    st.lists(st.sampled_from(_SYM_POOL), min_size=3, max_size=3, unique=True),
+    st.lists(st.sampled_from(_SYM_POOL), min_size=3, max_size=3, unique=True),
+    # line-oriented text: both line-end characters and one more symbol
+    st.sampled_from([" ", "x", "#", "\\", "\t", "0", '"']).flatmap(lambda o: st.permutations(["\r", "\n", o])),
+)
 
 
 def _has_case(t):
@@ -635,16 +835,31 @@ def _subterms(t):
                     yield y
 
 
+# built once: constructing (and validating) the recursive strategy anew for every example cost ten times more
+# than drawing from it
+_RAW_TERM = st.recursive(_leaf(), _ext, max_leaves=8)
+_MODE = st.sampled_from(["ctor", "ops"])
+_CASE_ALPHA = st.sampled_from(["abA", "aAB", "abc"])
+_EXTRA = st.lists(st.text("abcAB", min_size=4, max_size=9), max_size=8)
+
+
 @st.composite
 def _term_case(draw, tier):
-    t = normalise(draw(st.recursive(_leaf(), _ext, max_leaves=8)))
-    mode = draw(st.sampled_from(["ctor", "ops"]))
-    if _has_case(t):
-        alpha = draw(st.sampled_from(["abA", "aAB", "abc"]))
+    sym = list(draw(_sym))
+    raw = draw(_RAW_TERM)
+    mode = draw(_MODE)
+    if _has_case(raw):
+        alpha = draw(_CASE_ALPHA)
     else:
         alpha = "abc"
-    extra = draw(st.lists(st.text("abcAB", min_size=4, max_size=9), max_size=8))
-    return {"term": t, "mode": mode, "alpha": alpha, "maxlen": 3 if tier == "quick" else 5, "extra": extra}
+    extra = draw(_EXTRA)
+    alpha = _uniq(_sym_text(alpha, sym))
+    for ch in sym:                       # a non-letter has no other case: keep three symbols
+        if len(alpha) < 3 and ch not in alpha:
+            alpha += ch
+    t = normalise(concretise(raw, sym, "".join(sym) + alpha), guard=sym[0])
+    return {"term": t, "mode": mode, "alpha": alpha, "maxlen": 3 if tier == "quick" else 5,
+            "extra": [_sym_text(x, sym) for x in extra], "sym": sym}
 
 
 def strat_terms(tier):
@@ -1011,6 +1226,218 @@ def strat_taglang(tier):
 
 
 # =================================================================================================
+# 4. tag expressions where the shipped tools consume them
+# =================================================================================================
+# case := {"expr": chain,                     the --tags expression
+#          "pkgq": chain | None,              the -k / --pkg-query expression (values: the component's module name)
+#          "comps": [{"tags": [tag..], "decl": "kw" | "omit", "type": "rule" | "condition", "mod": int}, ..],
+#          "entry": "run-plugins" | "run-components" | "info",
+#          "opts": {"eq": bool, "nld": bool, "fmt": str | None, "verbose": bool, "as": "list" | "set"}}
+# The components live in a throw-away package below a temp dir; they depend on nothing, so a component is
+# evaluated by insights-run exactly when the option selected it.
+
+_SEL_PKG = "vp_dyn_c19sel"
+_SEL_MODS = ["a", "b", "ab", "net_c"]
+_SEL_K_TAGS = [_SEL_PKG + "." + m for m in _SEL_MODS] + [_SEL_PKG, "a"]
+_SEL_K_RE = ["\\.a$", "ab", "\\.b$", "net", "sel\\.a", "^vp_dyn", "_c$", "^a", "[.]ab?$"]
+_warm = []
+
+
+def _sel_source(comps):
+    """module name -> python source of the generated components in it"""
+    by_mod = {}
+    for i, c in enumerate(comps):
+        m = _SEL_MODS[c["mod"] % len(_SEL_MODS)]
+        lines = by_mod.setdefault(m, ["from insights.core.plugins import condition, make_pass, rule", ""])
+        args = "" if c["decl"] == "omit" else "tags=%r" % ([str(t) for t in c["tags"]],)
+        lines.append("")
+        lines.append("@%s(%s)" % (c["type"], args))
+        lines.append("def c%02d():" % i)
+        lines.append("    return %s" % ('make_pass("C%02d")' % i if c["type"] == "rule" else repr("c%02d" % i)))
+        lines.append("")
+    return dict((m, "\n".join(l)) for m, l in by_mod.items())
+
+
+def _sel_tags(c):
+    return [] if c["decl"] == "omit" else list(c["tags"])
+
+
+def _opt(name, value, eq):
+    return [name + "=" + value] if eq else [name, value]
+
+
+def check_tagselect(case):
+    import contextlib
+    import importlib
+    import io
+    import logging
+    import os
+    import shutil
+    import sys
+    import tempfile
+    import insights
+    from insights.core import dr, taglang
+    from insights.tools import query
+    from vp.sandbox import GlobalState
+
+    comps = case["comps"]
+    opts = case["opts"]
+    entry = case["entry"]
+    text = render_chain(case["expr"])
+    toks = _tokens(case["expr"], [])
+    ktext = ktoks = None
+    if case.get("pkgq") is not None:
+        ktext = render_chain(case["pkgq"])
+        ktoks = _tokens(case["pkgq"], [])
+    names = ["c%02d" % i for i in range(len(comps))]
+    modof = dict((n, _SEL_PKG + "." + _SEL_MODS[c["mod"] % len(_SEL_MODS)]) for n, c in zip(names, comps))
+    expected = set()
+    for n, c in zip(names, comps):
+        if ref_eval(toks, _sel_tags(c)) and (ktoks is None or ref_eval(ktoks, [modof[n]])):
+            expected.add(n)
+    for t in [text] + ([ktext] if ktext is not None else []):
+        try:
+            taglang.parse(t)
+        except Exception as e:   # parsr reports parse errors as plain Exception
+            raise Violation("taglang rejects the well-formed expression %r" % (t,), text=t, error=str(e)[:300])
+
+    if not _warm:
+        # what every run of insights-info loads first; done once per process and outside the snapshot below, so
+        # that restoring the registries never leaves imported-but-unregistered default components behind
+        query.load_default_components()
+        _warm.append(True)
+
+    tmp = tempfile.mkdtemp(prefix="vp-c19sel-")
+    path0 = list(sys.path)
+    color0 = getattr(insights, "_COLOR", None)
+    root_log = logging.getLogger()
+    log0 = (list(root_log.handlers), root_log.level)
+    out = io.StringIO()
+    selected = None
+    try:
+        with GlobalState(module_prefix=_SEL_PKG):
+            pkg = os.path.join(tmp, _SEL_PKG)
+            os.mkdir(pkg)
+            with open(os.path.join(pkg, "__init__.py"), "w") as f:
+                f.write("")
+            for m, src in _sel_source(comps).items():
+                with open(os.path.join(pkg, m + ".py"), "w") as f:
+                    f.write(src)
+            sys.path.insert(0, tmp)
+            importlib.invalidate_caches()
+            sel_args = _opt("--tags", text, opts["eq"])
+            if ktext is not None:
+                sel_args = (_opt("--pkg-query", ktext, opts["eq"]) if opts["eq"] else ["-k", ktext]) + sel_args
+
+            def loaded():
+                return dict((n, getattr(sys.modules[modof[n]], n)) for n in names)
+
+            if entry == "info":
+                sys.argv = ["insights-info", "-p", _SEL_PKG, "-t", "rule,condition"] + sel_args + \
+                    (["-v"] if opts["verbose"] else [])
+                with contextlib.redirect_stdout(out):
+                    query.main()
+                listed = [l.rstrip("\n") for l in out.getvalue().splitlines() if l.startswith(_SEL_PKG + ".")]
+                selected = set(l.rsplit(".", 1)[1] for l in listed)
+                if len(listed) != len(selected) or not selected <= set(names):
+                    raise Violation("insights-info lists %r for the generated components %r" % (listed, names))
+            else:
+                argv = ["insights-run"] + sel_args
+                if opts["fmt"]:
+                    argv += ["-f", opts["fmt"]]
+                if opts["nld"]:
+                    argv.append("--no-load-default")
+                component = None
+                if entry == "run-plugins":
+                    argv += ["-p", _SEL_PKG]
+                else:
+                    for m in sorted(set(modof.values())):
+                        importlib.import_module(m)
+                    component = [loaded()[n] for n in names]
+                    if opts["as"] == "set":
+                        component = set(component)
+                sys.argv = argv
+                try:
+                    with contextlib.redirect_stdout(out):
+                        broker = insights.run(component=component, print_summary=True)
+                except Exception as e:
+                    # the documented reaction to an empty selection
+                    if not str(e).startswith(("No components for tag expression", "No components for pkg-query expression")):
+                        raise
+                    selected = set()
+                else:
+                    selected = set(n for n, c in loaded().items() if c in broker.instances)
+    finally:
+        sys.path[:] = path0
+        sys.path_importer_cache.pop(tmp, None)
+        if color0 is not None:
+            insights._COLOR = color0
+        for h in list(root_log.handlers):
+            if h not in log0[0]:
+                root_log.removeHandler(h)
+        root_log.setLevel(log0[1])
+        shutil.rmtree(tmp, ignore_errors=True)
+
+    tool = "insights-info" if entry == "info" else "insights-run (%s)" % entry
+    if selected != expected:
+        tags = dict((n, _sel_tags(c)) for n, c in zip(names, comps))
+        raise Violation("%s --tags %r%s selects %r; boolean evaluation of the expression on each component's tags "
+                        "selects %r (missing %r, unexpected %r; tags: %r)"
+                        % (tool, text, "" if ktext is None else " -k %r" % (ktext,), sorted(selected), sorted(expected),
+                           sorted(expected - selected), sorted(selected - expected), tags),
+                        tags_expr=text, pkg_query=ktext, entry=entry, components=tags, modules=modof)
+    labels = ["entry=" + entry]
+    if any(not _sel_tags(c) for c in comps):
+        labels.append("component-without-tags")
+    if ref_eval(toks, []):
+        labels.append("true-on-no-tags")
+        if any(not _sel_tags(c) for c in comps):
+            labels.append("untagged-component-selected" if any(not _sel_tags(c) and n in expected
+                                                               for n, c in zip(names, comps)) else "untagged-cut-by-pkg-query")
+    if ktext is not None:
+        labels.append("pkg-query")
+    labels.append("selects-none" if not expected else "selects-all" if len(expected) == len(comps) else "selects-some")
+    if len(set(modof.values())) > 1:
+        labels.append("several-modules")
+    return {"nontrivial": 0 < len(expected) < len(comps),
+            "labels": labels, "key": [text, ktext, [[_sel_tags(c), c["mod"] % len(_SEL_MODS)] for c in comps], entry]}
+
+
+_sel_comp = st.builds(
+    lambda tags, decl, typ, mod: {"tags": tags, "decl": decl, "type": typ, "mod": mod},
+    st.one_of(st.just([]), st.lists(st.sampled_from(UNIVERSE), min_size=1, max_size=3, unique=True),
+              st.lists(st.sampled_from(UNIVERSE + ["d", "ba"]), max_size=4, unique=True)),
+    st.sampled_from(["kw", "kw", "kw", "omit"]), st.sampled_from(["rule", "rule", "condition"]), st.sampled_from([0, 0, 1, 2, 3]))
+
+_k_atom = st.one_of(
+    st.builds(lambda t, q: {"tag": t, "q": q}, st.sampled_from(_SEL_K_TAGS), st.integers(0, 2)),
+    st.builds(lambda r, q: {"re": r, "q": q}, st.sampled_from(_SEL_K_RE), st.integers(0, 2)),
+)
+
+
+_SEL_ENTRY = st.sampled_from(["run-plugins", "run-components", "info"])
+_SEL_COMPS = st.lists(_sel_comp, min_size=2, max_size=6)
+_SEL_EXPR = _tag_expr()
+_SEL_PKGQ = _chain_of(st.one_of(_k_atom, _k_atom, st.builds(lambda c: {"group": c}, _chain_of(_k_atom))))
+_SEL_WITH_PKGQ = st.sampled_from([False, False, True])
+_SEL_OPTS = st.fixed_dictionaries({"eq": st.booleans(), "nld": st.booleans(), "fmt": st.sampled_from([None, "json", "text"]),
+                                   "verbose": st.booleans(), "as": st.sampled_from(["list", "set"])})
+
+
+@st.composite
+def _tagselect_case(draw):
+    entry = draw(_SEL_ENTRY)
+    comps = draw(_SEL_COMPS)
+    expr = draw(_SEL_EXPR)["expr"]
+    pkgq = draw(_SEL_PKGQ) if draw(_SEL_WITH_PKGQ) else None
+    return {"expr": expr, "pkgq": pkgq, "comps": comps, "entry": entry, "opts": draw(_SEL_OPTS)}
+
+
+def strat_tagselect(tier):
+    return _tagselect_case()
+
+
+# =================================================================================================
 # self-test of the reference models (fixed cases with known answers)
 # =================================================================================================
 
@@ -1043,6 +1470,19 @@ def selftest():
     assert normalise(normalise(rec)) == normalise(rec)
     assert effective(["seq", [["seq", [a, b]], c]], "ops") == ["seq", [a, b, c]]
     assert effective(["seq", [["seq", [a, b]], c]], "ctor") == ["seq", [["seq", [a, b]], c]]
+    # named parsers of the library and the symbol map
+    assert run(["many", ["prim", "EOL"], 0], "\r\n\nx") == [3, ["\r", "\n", "\n"]]
+    assert run(["seq", [["prim", "Letters"], ["prim", "LineEnd"]]], "ab") == [2, ["ab", None]]
+    assert run(["kr", ["prim", "WS"], ["prim", "Digits"]], " \t\r\n07x") == [6, "07"] and run(["prim", "WSChar"], "\n") is FAIL
+    crlf = ["\r", "\n", "x"]
+    assert concretise(["lit", "aAb", True, None], crlf, "\r\nx") == ["lit", "\r\r\n", True, None]
+    assert concretise(["map", ["string", "ab", 1], 0, ["ab", ["c"]]], crlf, "\r\nx") == \
+        ["map", ["string", "\r\n", 1], 0, ["\r\n", ["x"]]]
+    assert concretise(["withindent", ["hang", "ab"]], crlf, "\r\nx") == ["wrap", ["string", "\r\n", 0]]
+    assert concretise(["withindent", ["hang", "ab"]], ["a", "b", "c"], "abc") == ["withindent", ["hang", "ab"]]
+    assert concretise(["prim", 0], crlf, "\r\nx") == ["prim", "EOL"] and concretise(["prim", 0], list("abc"), "abc")[1] == "LineEnd"
+    assert _sym_text("aAbB", ["x", "\u00e9", "0"]) == "xX\u00e9\u00c9" and _swap("\n") == "\n"
+    assert run(["choice", [["lit", "\r\n", False, 0], ["lit", "\n", False, 1], ["lit", "\r", False, 2]]], "\r\n") == [2, 0]
     # tag expressions: the documented examples
     def tev(chain, tags):
         return ref_eval(_tokens(chain, []), tags)
@@ -1076,6 +1516,8 @@ SUBS = [
         workers_thorough=16, budget_quick=10, budget_thorough=300),
     Sub("taglang", check_taglang, strategy=strat_taglang, quick=600, thorough=8000, workers_quick=2,
         workers_thorough=16, budget_quick=15, budget_thorough=400),
+    Sub("tagselect", check_tagselect, strategy=strat_tagselect, quick=60, thorough=1500, workers_quick=2,
+        workers_thorough=16, budget_quick=10, budget_thorough=400),
     # coverage-guided campaigns (Atheris / libFuzzer) over the same strategies and oracles: the combinator
     # library, the JSON grammar and the tag language are pure Python, so edge coverage is a usable gradient
     Sub("fz_terms", check_terms, custom=_fuzz.hyp_campaign(PROPERTY, "terms", ["insights.parsr"], runs_quick=150,
@@ -1107,6 +1549,20 @@ REGRESSIONS = [
                                              "alpha": "abc", "maxlen": 4, "extra": ["aaabaa"]}),
     Reg("seq-accumulation", "terms", {"term": ["seq", [["seq", [["char", "a"], ["opt", ["char", "b"], None]]], ["char", "c"]]],
                                       "mode": "ops", "alpha": "abc", "maxlen": 3, "extra": []}),
+    # /repo fix 5b4fadf: insights-info evaluated the --tags expression in place of the -k expression when both were given
+    Reg("info-pkg-query-and-tags-1", "tagselect", {
+        "expr": {"items": [{"neg": True, "atom": {"tag": "a", "q": 0}, "pre": 0, "post": 0}], "ops": []},
+        "pkgq": {"items": [{"neg": True, "atom": {"tag": "vp_dyn_c19sel.a", "q": 0}, "pre": 0, "post": 0}], "ops": []},
+        "entry": "info",
+        "comps": [{"tags": [], "decl": "kw", "type": "rule", "mod": 0}, {"tags": [], "decl": "kw", "type": "rule", "mod": 0}],
+        "opts": {"eq": False, "nld": False, "fmt": None, "verbose": False, "as": "list"}}),
+    Reg("info-pkg-query-and-tags-2", "tagselect", {
+        "expr": {"items": [{"neg": False, "atom": {"tag": "a", "q": 0}, "pre": 0, "post": 0}], "ops": []},
+        "pkgq": {"items": [{"neg": False, "atom": {"re": "[.]a$", "q": 1}, "pre": 1, "post": 0}], "ops": []},
+        "entry": "info",
+        "comps": [{"tags": ["a", "x&y"], "decl": "kw", "type": "rule", "mod": 0}, {"tags": ["a"], "decl": "kw", "type": "rule", "mod": 1},
+                  {"tags": [], "decl": "omit", "type": "condition", "mod": 0}],
+        "opts": {"eq": True, "nld": False, "fmt": None, "verbose": True, "as": "list"}}),
     Reg("doc-example", "taglang", {"expr": {"items": [
         {"neg": False, "atom": {"tag": "a", "q": 0}, "pre": 0, "post": 1},
         {"neg": False, "atom": {"tag": "b", "q": 0}, "pre": 1, "post": 1},
